@@ -386,7 +386,7 @@ func (e *engine) commit(ns *nodeState, st Step) {
 		}
 		// every other WAL transaction spills an early version of its last page first, so that the
 		// page appears in two frames of the transaction (SQLite does this when its cache is too small)
-		if err == nil && st.G.V%2 == 1 {
+		if err == nil && st.G.V%2 == 0 {
 			err = pg.WFrame(pl.M[len(pl.M)-1], true, false)
 		}
 		for i, q := range pl.M {
